@@ -64,11 +64,17 @@ int main(int argc, char** argv)
             ++decltypes;
             (void) lexicon.get_as_type(*id);
             ++astypes;
+            // declarations of the unit handed to the Lexicon DIRECTLY as operands of unified nodes (no id-expression in between)
+            (void) lexicon.get_as_type(*var); (void) lexicon.get_as_type(*tmpl); ++astypes;
+            (void) lexicon.get_decltype(*var); ++decltypes;
+            (void) lexicon.get_array(lexicon.int_type(), *var);
             // a type declared in the unit, used as operand of unified types
             auto td = region.declare_type(lexicon.get_identifier(word("S", d)), lexicon.class_type());
             auto tid = lexicon.make_id_expr(*td);
             auto& tt = lexicon.get_as_type(*tid);
             (void) lexicon.get_pointer(tt);
+            auto& dt = lexicon.get_as_type(*td); (void) lexicon.get_as_type(*td); ++astypes;
+            (void) lexicon.get_pointer(dt); (void) lexicon.get_reference(dt);
             (void) lexicon.get_qualified(lexicon.const_qualifier(), tt);
          }
          std::printf("lexicon %d round %d: %d declarations\n", lex, r, ndecl);
@@ -92,6 +98,7 @@ int main(int argc, char** argv)
             auto id = lexicon.make_id_expr(*var);
             (void) lexicon.get_decltype(*id); ++decltypes;
             (void) lexicon.get_as_type(*id); ++astypes;
+            (void) lexicon.get_as_type(*var); (void) lexicon.get_decltype(*var); (void) lexicon.get_array(lexicon.int_type(), *var);
          }
       }
       kept.clear();
